@@ -70,6 +70,7 @@ type channel struct {
 	id     int
 	sink   func(fr *frame, v value) // if set, sends are delivered here (always ready)
 	unboundedSink bool
+	recvWaiters   int
 	// scripted: if non-nil, called when a receive finds the buffer empty, to let a harness
 	// environment produce a value on demand.
 }
